@@ -64,6 +64,7 @@ func (c *Ctx) leaveModel() *handlerModel {
 func init() {
 	register("C08", func(c *Ctx) {
 		hm := c.handlerModels()
+		checkMerge(c, "C08") // a departure learned by push/pull is delivered as a self-signed claim (left, not failed)
 		p := c.P
 		c.Assume("that the departure reaches a peer (network) and ordering against in-flight traffic on peers beyond the per-claim rows are not decided")
 
